@@ -312,11 +312,12 @@ Step ==
             LET r == Consume(Advance([m EXCEPT !.ob = @ \o e.b]), viol, l, FALSE) IN m' = r.m /\ viol' = r.v
        [] e.e = "fl" ->
             LET r == Consume(Advance([m EXCEPT !.unfl = 0]), viol, l, FALSE) IN m' = r.m /\ viol' = r.v
-       [] e.e \in {"rd", "rd_err"} /\ m.quit /\ ~m.fault /\ ~m.lost /\ ~m.free ->
-            \* the client's QUIT has been received and everything before it served: the connection is over, the
-            \* server has no business reading on (whatever such a read returns must not turn the clean end into an error)
-            /\ m' = [m EXCEPT !.lost = TRUE]
-            /\ viol' = viol \cup {V("C19", l, "the server reads from the transport after the client's QUIT")}
+       [] e.e = "rd_err" /\ m.quit /\ ~m.fault ->
+            \* the client's QUIT has been served: the connection has ended cleanly as far as the client is concerned.
+            \* Whether the server reads on (to drain the socket, say) is its own business, but what such a read
+            \* returns is no longer a failure of the conversation: the outcome stays "Ok exactly when the client quits"
+            /\ m' = m
+            /\ UNCHANGED viol
        [] e.e = "rd" ->
             LET r0 == Consume(Advance(m), viol, l, TRUE)
                 v1 == r0.v \cup SyncViol(r0.m, l)
